@@ -2,10 +2,10 @@ SPECIFICATION Spec
 CONSTANTS
   W = 4
   F = 3
-  Threads = {t1, t2}
-  Counts = {1, 3, 5, 6}
-  MaxClaims = 2
-  Blocked = {11}
+  Threads = {t1, t2, t3}
+  Counts = {1, 3, 6}
+  MaxClaims = 1
+  Blocked = {10, 11}
   Purgers = {}
 INVARIANTS BitsAccounted OwnedBitsSet AllFreeAtEnd BlockedStay
 CHECK_DEADLOCK FALSE
